@@ -140,7 +140,7 @@ func caseVariant(s string, variant int, h uint64) string {
 }
 
 func runC10(c *rt.Ctx) {
-	L := c.Pick(7, 8)
+	L := c.Pick(7, 9)
 	c.SetRule(fmt.Sprintf("every string over {I,V,X,L,C,D,M} of length 0..%d is enumerated once (exhaustive) in upper case, lower case and two hash-determined mixed-case renderings, each through DefaultParser[string|[]byte], Valid[string|[]byte] and UnmarshalText, with and without RuleDisableEmptyAsZero; ", L) +
 		"plus every single-byte substitution (256 values) and multi-byte case-fold look-alikes at each position of seeded valid numerals, and M-runs around the 128-byte limit. " +
 		"distinct_nontrivial counts distinct accepted texts that contain a five-symbol or a subtractive pair (per case variant), each enumerated once")
